@@ -63,7 +63,7 @@ def main():
         if res.upper().startswith("NEUTRALISED"):
             print(name, "SKIP (neutralised by a fix)", flush=True)
             continue
-        checks = re.findall(r"check (C\d\d)", det)
+        checks = re.findall(r"(?:check )?(C\d\d) (?:quick|thorough)", det)
         check = own if (own in checks or not checks) else checks[0]
         if res.upper().startswith("MISSED"):
             m = re.findall(r"DETECTED by \./check (C\d\d)", res + " " + det)
